@@ -323,6 +323,57 @@ def _kexinit_worker(args):
     return acc.result()
 
 
+def language_tags():
+    """RFC 3066 (RFC 4253 s7.1 language name-lists): Language-Tag = Primary-subtag *( "-" Subtag ), Primary-subtag =
+    1*8ALPHA, Subtag = 1*8(ALPHA / DIGIT) - every primary length 1..8 with none, one (every length 1..8, letters and
+    digits) or two subtags."""
+    out = []
+    letters, mixed = 'valencia', '1606nict'
+    for pl in range(1, 9):
+        primary = letters[:pl]
+        out.append(primary)
+        for sl in range(1, 9):
+            for sub in (letters[:sl], mixed[:sl], letters[:sl].upper()):
+                out.append('%s-%s' % (primary, sub))
+            for sl2 in (1, 4, 8):
+                out.append('%s-%s-%s' % (primary, mixed[:sl], letters[:sl2]))
+    return sorted(set(out))
+
+
+def _language_worker(_):
+    acc = core.Acc()
+    from cryptoparser.ssh import subprotocol as ss
+    base_lists = [['curve25519-sha256'], ['ssh-ed25519'], ['aes128-ctr'], ['aes128-ctr'], ['hmac-sha2-256'],
+                  ['hmac-sha2-256'], ['none'], ['none'], [], []]
+    cookie = bytes(range(16))
+    tags = language_tags()
+    for tag in tags:
+        for where in ((8,), (9,), (8, 9)):
+            lists = [list(x) for x in base_lists]
+            for k in where:
+                lists[k] = [tag] if len(where) == 1 else ['en', tag]
+            wire = ref.kexinit(cookie, lists, False, 0)
+            acc.counters['transitions'] = acc.counters.get('transitions', 0) + 2
+            w = {'kind': 'kexinit_language', 'tag': tag, 'where': list(where)}
+            try:
+                o = ss.SshKeyExchangeInit.parse_exact_size(wire)
+            except Exception as e:  # noqa
+                acc.violation('kexinit:parse_raises:%s:listlang' % core.ename(e),
+                              'KEXINIT with the RFC 3066 language tag %r rejected (%s)' % (tag, core.ename(e)), w)
+                continue
+            got = [[bytes(x.compose()).decode('ascii') for x in getattr(o, n)] for n in KEXINIT_LISTS[8:]]
+            if got != lists[8:]:
+                acc.violation('kexinit:fields_differ:languages', 'language tag %r parsed as %r' % (tag, got), w)
+            try:
+                if bytes(o.compose()) != wire:
+                    acc.violation('kexinit:compose_differs', 'KEXINIT with language %r re-composes differently' % tag, w)
+            except Exception as e:  # noqa
+                acc.violation('kexinit:compose_raises:%s' % core.ename(e), 'parsed KEXINIT cannot be composed', w)
+            acc.state(core.h64('kexinit-lang', tag, where))
+    acc.sample({'kind': 'kexinit_language', 'tags': len(tags), 'first': tags[0], 'last': tags[-1]}, 1)
+    return acc.result()
+
+
 def attr_fields(cls):
     import attr
     return {f.name: f for f in attr.fields(cls)}
@@ -547,7 +598,7 @@ def _ecdsa_worker(_):
 
 
 def _cert_option_worker(args):
-    qn, = args
+    qn, part, parts = (tuple(args) + (0, 1))[:3]
     acc = core.Acc()
     import attr
     cls = classes.class_by_name(qn)
@@ -557,6 +608,8 @@ def _cert_option_worker(args):
     seed = seeds[0]
     variants = cert_variants(seed)
     for i, ch in enumerate(variants):
+        if i % parts != part:
+            continue
         try:
             o = attr.evolve(seed, **ch)
         except Exception:  # noqa
@@ -566,7 +619,8 @@ def _cert_option_worker(args):
                                              'changed': {k: repr(v)[:120] for k, v in ch.items()}})
         acc.state(core.h64('cert', qn, i))
         check_inplace_histories(acc, cls, o, {'kind': 'cert_inplace', 'cls': qn, 'variant': i})
-    acc.sample({'kind': 'cert', 'cls': qn, 'variants': len(variants)}, 1)
+    if part == 0:
+        acc.sample({'kind': 'cert', 'cls': qn, 'variants': len(variants)}, 1)
     return acc.result()
 
 
@@ -681,10 +735,11 @@ def run(ctx):
         for i in range(len(so.get(cls, []))):
             oitems.append((classes.qualname(cls), i, 1 if ctx.quick else 2))
     ctx.pmap(_object_worker, oitems)
-    ctx.pmap(_cert_option_worker, [(classes.qualname(c),) for c in bridged_classes()
-                                   if c.__name__.startswith('SshHostCertificate')])
+    ctx.pmap(_cert_option_worker, [(classes.qualname(c), part, 6) for c in bridged_classes()
+                                   if c.__name__.startswith('SshHostCertificate') for part in range(6)])
     ctx.pmap(_ecdsa_worker, [0], nproc=1)
     ctx.pmap(_banner_worker, [0], nproc=1)
+    ctx.pmap(_language_worker, [0], nproc=1)
     ctx.assumptions += [
         'reference encoders written from RFC 4251/4253/4419/5656/8709 and OpenSSH PROTOCOL.certkeys; anchored on the '
         'suite vectors by the self-test',
@@ -717,6 +772,8 @@ def replay(ctx, w):
         except Exception as e:  # noqa
             acc.violation('kexinit:parse_raises:%s:list' % core.ename(e), 'rejected', w)
         res = acc.result()
+    elif k == 'kexinit_language':
+        res = _language_worker(0)
     elif k == 'banner':
         res = _banner_worker(0)
         res = (res[0], [v for v in res[1] if v['witness'].get('wire') == w.get('wire')] or res[1], res[2], res[3])
